@@ -917,6 +917,8 @@ impl Walrus {
         if !hold_lock_during_io && info_guard.is_some() {
             // Release lock for AtLeastOnce before IO
             drop(info_guard.take().unwrap());
+            #[cfg(walrus_verif)]
+            crate::wal::verif::sched_point("batch_read:released_for_io");
         }
 
         // 3) Read ranges via io_uring (FD backend) or mmap
